@@ -8,7 +8,7 @@
 (* never disables the step; it is RECORDED (register 2) with trace id, event index and clause, and *)
 (* the run continues from the observed state, so that one run reports every deviation of every     *)
 (* trace.  Acceptance: all events consumed (register 1) -- see POSTCONDITION.                        *)
-EXTENDS RoaringSet, SequencesExt, Json, TLC, IOUtils
+EXTENDS RoaringIter, SequencesExt, Json, TLC, IOUtils
 
 Trace == ndJsonDeserialize(IOEnv.TRACE_FILE)
 
@@ -16,8 +16,9 @@ VARIABLES l,        \* index of the next event
           U,        \* universe of the current trace
           content,  \* [Slots -> SUBSET Atoms(U)]  what each slot denotes (observed, after resync)
           reps,     \* [Slots -> sequence of chunk records] last logged representation
-          bad       \* slots whose observed set was not a union of atoms (their content is best effort)
-vars == <<l, U, content, reps, bad>>
+          bad,      \* slots whose observed set was not a union of atoms (their content is best effort)
+          iters     \* [ItIds -> iterator state]  (RoaringIter)
+vars == <<l, U, content, reps, bad, iters>>
 
 NoU == [nat |-> 0, ncell |-> 0]
 
@@ -27,6 +28,7 @@ Init ==
   /\ content = [s \in Slots |-> {}]
   /\ reps = [s \in Slots |-> <<>>]
   /\ bad = {}
+  /\ iters = [i \in ItIds |-> NoIt]
   /\ TLCSet(1, 0)
   /\ TLCSet(2, <<>>)
 
@@ -80,6 +82,7 @@ StartTrace(ev) ==
   /\ content' = [s \in Slots |-> {}]
   /\ reps' = [s \in Slots |-> <<>>]
   /\ bad' = {}
+  /\ iters' = [i \in ItIds |-> NoIt]
 
 Call(ev) ==
   LET exp == Effect(U, content, ev)
@@ -96,6 +99,8 @@ Call(ev) ==
                        [exp |-> exp[s], obs |-> obs[s]]) : s \in wrong}
       vRet == IF ~panicked /\ HasResult(ev) /\ inputsOK /\ ~ResultOK(U, content, ev, ev.ret)
               THEN {V(ev, "result", 0, IF SerialClauses(ev, ev.ret) # {} THEN SerialClauses(ev, ev.ret) ELSE ev.ret)} ELSE {}
+      vIter == IF ~panicked /\ IterHasResult(ev) /\ inputsOK /\ IterClauses(U, content, iters, ev, ev.ret) # {}
+               THEN {V(ev, "iteration", 0, IterClauses(U, content, iters, ev, ev.ret))} ELSE {}
       vList == IF ~panicked /\ HasListing(ev) /\ inputsOK /\ ToSet(ev.arr) # ListingOf(U, content, ev)
                THEN {V(ev, "listing", 0, ev.arr)} ELSE {}
       vAux == IF ev.aux THEN {} ELSE {V(ev, "aux", 0, "")}
@@ -113,7 +118,8 @@ Call(ev) ==
      /\ reps' = rs
      /\ bad' = (bad \ {ev.post[i].s : i \in DOMAIN ev.post}) \cup nowbad
      /\ U' = U
-     /\ Record(vPanic \cup vBad \cup vContent \cup vRet \cup vList \cup vAux \cup vArg \cup vBuf \cup vRep \cup vShare \cup vAlias \cup vProbe \cup vGor)
+     /\ iters' = IF ev.op \in ItOps THEN IterStep(U, content, iters, ev) ELSE iters
+     /\ Record(vPanic \cup vBad \cup vContent \cup vRet \cup vList \cup vAux \cup vArg \cup vBuf \cup vRep \cup vShare \cup vAlias \cup vProbe \cup vGor \cup vIter)
 
 Next ==
   /\ l <= Len(Trace)
